@@ -611,7 +611,10 @@ func (o *operation) resolveMethod(transcoder *Transcoder) error {
 	uriPath := o.request.URL.Path
 	if o.client.protocol.protocol() == ProtocolREST {
 		var methods routeMethods
-		o.restTarget, o.restVars, methods = transcoder.restRoutes.match(uriPath, o.request.Method)
+		// Routes are matched against the path as it is on the wire: a percent-encoded
+		// slash or percent sign is part of a segment's value, and variable values are
+		// percent-decoded (once) when they are captured.
+		o.restTarget, o.restVars, methods = transcoder.restRoutes.match(o.request.URL.EscapedPath(), o.request.Method)
 		if o.restTarget != nil {
 			o.methodConf = o.restTarget.config
 			return nil
